@@ -122,7 +122,7 @@ def Writer.writeImpl (w : Writer) : Token → Except WErr Writer
     match w.lastDe with
     | none => .error .unexpectedToken
     | some de =>
-      match w.enc.primitiveElement de v with
+      match w.enc.encodePrimitiveElement de v with
       | .ok e => .ok { w with enc := e, lastDe := none }
       | .error x => .error x
   | .offsetTable t => .ok { w with enc := w.enc.offsetTable t }
